@@ -220,6 +220,11 @@ class Pipeline:
         def m_validator(I, st, c, args, cont, depth, site):
             name = c.rsplit('::', 1)[1]
             I.event(st, 'validator', name)
+            n = st.meta.get('validator_calls', 0)
+            st.meta['validator_calls'] = n + 1
+            if name != 'new_with_features' and st.meta.get('validator_fail_at') == n:
+                I.event(st, 'validator-rejects', name)
+                return cont(st, err(Opaque('BinaryReaderError')))
             if name == 'new_with_features':
                 st.meta['validator_features'] = args[0]
                 return cont(st, Opaque('Validator'))
@@ -328,11 +333,56 @@ class Pipeline:
             if name == 'name':
                 return cont(st, v.get('name'))
             if name == 'data':
+                if v.get('names') is not None or v.get('producers') is not None:
+                    return cont(st, Struct('SectionData', (v.get('data'), v.get('names'), v.get('producers')), ('data', 'names', 'producers')))
                 return cont(st, v.get('data'))
             if name == 'data_offset':
                 return cont(st, usize(0))
             raise Inconclusive(c)
         add(r'^(wasmparser::)?CustomSectionReader::<.*>::(name|data|data_offset)$', m_custom, 'CustomSectionReader::name/data')
+
+        # ---- producers / name section readers (items come from the description)
+        def m_raw_sections(I, st, c, args, cont, depth, site):
+            rd = args[0]
+            src = rd.f[0] if isinstance(rd, Struct) and rd.ty == 'RawReader' else None
+            if not (isinstance(src, Struct) and src.ty == 'SectionData'):
+                raise Inconclusive('reader over an undescribed payload: %r' % (rd,))
+            if 'ProducersField' in c:
+                fields = src.get('producers')
+                items = [pl.mk('wasmparser::ProducersField', name=f, values=section([pl.mk('wasmparser::ProducersFieldValue', name=a, version=b) for a, b in vals])) for f, vals in fields]
+                return cont(st, ok(section(items)))
+            names = src.get('names')
+            subs = []
+            KINDS = {'functions': 'Function', 'types': 'Type', 'tables': 'Table', 'memories': 'Memory', 'globals': 'Global', 'elements': 'Element', 'data': 'Data', 'labels': 'Label'}
+            for k, v in names.items():
+                if k == 'module':
+                    subs.append(Enum('wasmparser::Name', 'Module', (v, rng(usize(0), usize(0))), ('name', 'name_range')))
+                elif k == 'locals':
+                    subs.append(Enum('wasmparser::Name', 'Local', (section([pl.mk('wasmparser::IndirectNaming', index=bv(fi, 'u32'), names=section([pl.mk('wasmparser::Naming', index=bv(li, 'u32'), name=n) for li, n in m.items()])) for fi, m in v.items()]),)))
+                elif k == 'unknown':
+                    subs.append(Enum('wasmparser::Name', 'Unknown', (bv(v, 'u8'), Opaque('bytes'), rng(usize(0), usize(0))), ('ty', 'data', 'range')))
+                else:
+                    subs.append(Enum('wasmparser::Name', KINDS[k], (section([pl.mk('wasmparser::Naming', index=bv(i, 'u32') if isinstance(i, int) else i, name=n) for i, n in v.items()]),)))
+            cont(st, Struct('SectionLimited', (VecVal(subs),), ('items',)))
+        add(r'^(wasmparser::)?SectionLimited::<.*ProducersField.*>::new$|^(wasmparser::)?Subsections::<.*Name.*>::new$', m_raw_sections, 'ProducersSectionReader/NameSectionReader::new = the described fields / subsections')
+        add(r'^<(wasmparser::)?Subsections<.*> as IntoIterator>::into_iter$', m_sec_iter, 'name subsections iteration')
+
+        def m_str_is_empty(I, st, c, args, cont, depth, site):
+            v = I.deref(st, args[0]) if isinstance(args[0], Ref) else args[0]
+            if isinstance(v, Opaque) and v.name.startswith('str:"'):
+                return cont(st, z3.BoolVal(v.name == 'str:""'))
+            if isinstance(v, Opaque):
+                return cont(st, z3.Bool('is_empty[%s]' % v.name))
+            raise Inconclusive('is_empty of %r' % (v,))
+        add(r'^core::str::<impl str>::is_empty$|^(std::string::)?String::is_empty$', m_str_is_empty, 'str::is_empty')
+
+        # ---- user callbacks of the configuration (recorded)
+        def m_on_parse(I, st, c, args, cont, depth, site):
+            tupv = args[1]
+            idx = I.deref(st, tupv.f[1]) if isinstance(tupv.f[1], Ref) else tupv.f[1]
+            I.event(st, 'on_parse', pl.snap(st, idx), pl.snap(st, tupv.f[0]))
+            cont(st, ok(unit()))
+        add(r'^<Box<dyn for<.*> Fn\(&.* mut module::Module, &.* IndicesToIds\).*> as Fn<.*>>::call$', m_on_parse, 'config.on_parse callback = recorded, returns Ok')
 
         def m_starts_with(I, st, c, args, cont, depth, site):
             s_ = I.deref(st, args[0]) if isinstance(args[0], Ref) else args[0]
@@ -355,6 +405,8 @@ class Pipeline:
             v = I.deref(st, args[0]) if isinstance(args[0], Ref) else args[0]
             if isinstance(v, Opaque):
                 return cont(st, v)
+            if isinstance(v, Struct) and v.ty == 'SectionData':
+                return cont(st, v.get('data'))
             return NotImplemented
         add(r'^(alloc::)?slice::<impl \[u8\]>::to_vec$|^<\[u8\] as ToOwned>::to_owned$', m_to_vec_u8, '[u8]::to_vec on an opaque payload token = the same token')
 
@@ -556,11 +608,12 @@ class Pipeline:
             cfg = cfg.with_field(cfg.names.index(k), v)
         return cfg
 
-    def run_emit(self, st, module):
+    def run_emit(self, st, module, mref=None):
         """interpret the real emit_wasm on a Module value; returns [(state, recorded wasm_encoder::Module, module ref)]"""
         I = self.I
         emit = self.ctx.fn(r'^module::<impl at src/module/mod\.rs:\d+:\d+: \d+:\d+>::emit_wasm$')
-        mref = I.halloc(st, module)
+        if mref is None:
+            mref = I.halloc(st, module)
         outs = []
         I.run(emit, [mref], st, lambda s, v: outs.append((s, v, mref)))
         return outs
@@ -651,6 +704,15 @@ def module_len(I, st, mod):
     if ci[0] != len(secs) - 1:
         tot = tot + symlen('bytes_after_code_section_%d' % (len(secs) - ci[0] - 1))
     return tot
+
+
+def run_gc(pl, st, mref):
+    """interpret the real passes::gc::run(&mut module); returns [(state, result)]"""
+    I = pl.I
+    gc = pl.ctx.fn(r'^passes::gc::run$|^gc::run$')
+    outs = []
+    I.run(gc, [mref], st, lambda s, v: outs.append((s, v)))
+    return outs
 
 
 def _featset(v):
